@@ -1,21 +1,62 @@
-import os, sys
+import os, sys, re
 sys.path.insert(0, os.path.dirname(__file__))
 from _common import *
-UW = {'write_all': 5, 'write_one': 5, 'simd_bitmask': 17, 'swap_nonoverlapping': 8, 'set_env': 2, 'memcmp': 2}
+UW = {'write_all': 5, 'write_one': 5, 'slice_one': 5, 'simd_bitmask': 17, 'swap_nonoverlapping': 8, 'set_env': 2, 'memcmp': 2}
 B = 'arbitrary previous file state (absent, or 0..3 symbolic bytes) x new content of 0..3 symbolic bytes x any modes; hooks may fail (symbolic)'
 A = 'after Ok: the file holds EXACTLY the new bytes (length and content); created with the mode of its type; chown for key/cert only; pre/post create or edit hooks bracket the write; no open after a failed pre hook'
+
+
+def gen_storage(d, cache, cut):
+    """Source slice: the open/write/chown statements of write_file (after the unit's expression cuts)."""
+    p = os.path.join(d, ST)
+    src = cache[p]
+    real = src.split('#[cfg(kani)]')[0]
+    a, b = 'let mut file = if cfg!(unix) {', '\tif is_new {'
+    if real.count(a) != 1:
+        raise cut.EncodeError('slice: anchor %r not found exactly once in storage.rs' % a)
+    i = real.index(a)
+    j = real.find(b, i)
+    if j < 0:
+        raise cut.EncodeError('slice: end anchor of write_file not found')
+    sl = real[i:j]
+    # single-task de-sugaring of the slice: `<call>.await` -> `<call>_sync` of the file model
+    for pat, rep, n in [(r'\.open\(&path\)\s*\.await', '.open_sync(&path)', 1), (r'File::create\(&path\)\s*\.await', 'File::create_sync(&path)', 1),
+                        (r'\.write_all\(data\)\s*\.await', '.write_all_sync(data)', 1)]:
+        sl, k = re.subn(pat, rep, sl)
+        if k != n:
+            raise cut.EncodeError('slice: %r expected %d, got %d' % (pat, n, k))
+    if '.await' in sl:
+        raise cut.EncodeError('slice: unexpected .await left in the write_file slice')
+    cache[p] = src.replace('VERIF_WRITE_SLICE', '\t' + sl)
+
+
+SB = 'arbitrary previous file state (absent, or 0..3 symbolic bytes) x new content of 0..3 symbolic bytes x any u32 modes'
+SA = 'after the open/write/chown statements of write_file: exactly one open for writing; the file holds EXACTLY the new bytes (length and content: no residue); a new file is created with the mode of its type (0600 account, pk_file_mode, cert_file_mode); chown for key/cert only'
+SLICE_EDITS = [{'file': ST, 'replace': 'use tokio::fs::{File, OpenOptions};', 'with': 'use self::verif_h::fsm::{File, OpenOptions};'}] + STORAGE_EDITS[1:]
+SLICE_UNIT = {
+    'name': 'write_slice', 'shims': ['nix'], 'edits': SLICE_EDITS, 'gen': gen_storage,
+    'assumptions': STORAGE_ASSUMPTIONS + ['the file model of this unit returns a plain error value instead of std::io::Error (its drop glue exhausted the solver); Error::from of that value is a fixed message', 'source slice: the statements of storage::write_file from `let mut file = if cfg!(unix)` up to the post hooks are pasted verbatim from /repo into write_slice(), de-sugared to a single task (`.await` dropped, the file model is synchronous); path computation, hook environment and the four hook calls are outside this unit'],
+    'harness_files': {ST: ['harness/storage.rs', 'harness/storage_slice.rs']},
+    'harnesses': [
+        {'name': 'c02_slice_witness', 'file': ST, 'kind': 'witness', 'timeout': 900, 'unwindset': UW, 'bounds': 'concrete 2-byte write, file present or absent', 'asserts': 'reachability of the create and the edit path'},
+        {'name': 'c02_slice_account', 'file': ST, 'timeout': 1500, 'unwindset': UW, 'bounds': 'account file; ' + SB, 'asserts': SA},
+        {'name': 'c02_slice_private_key', 'file': ST, 'timeout': 1500, 'unwindset': UW, 'bounds': 'private-key file; ' + SB, 'asserts': SA},
+        {'name': 'c02_slice_certificate', 'file': ST, 'timeout': 1500, 'unwindset': UW, 'bounds': 'certificate file; ' + SB, 'asserts': SA},
+    ],
+}
 SPEC = {
     'id': 'C02',
     'outside': "the file system's own atomicity/crash behaviour; contents longer than 3 bytes (no length-dependent code on the path); the identity 'bytes written == body returned by the CA' in request_certificate (flow harness); path construction and template rendering",
     'assumptions': STORAGE_ASSUMPTIONS + ['RandomState/fmt::format stubbed'],
     'units': [
+        SLICE_UNIT,
         {
             'name': 'write', 'shims': ['nix'], 'edits': STORAGE_EDITS, 'harness_files': {ST: 'harness/storage.rs'},
             'harnesses': [
                 {'name': 'dbg_write_min', 'file': ST, 'tiers': ['dbg'], 'timeout': 900, 'unwindset': UW},
-                {'name': 'c02_write_account', 'file': ST, 'timeout': 1800, 'unwindset': UW, 'bounds': 'account file; ' + B, 'asserts': A},
-                {'name': 'c02_write_private_key', 'file': ST, 'timeout': 1800, 'unwindset': UW, 'bounds': 'private-key file; ' + B, 'asserts': A},
-                {'name': 'c02_write_certificate', 'file': ST, 'timeout': 1800, 'unwindset': UW, 'bounds': 'certificate file; ' + B, 'asserts': A},
+                {'name': 'c02_write_account', 'file': ST, 'tiers': ['dbg'], 'timeout': 1800, 'unwindset': UW, 'bounds': 'account file; ' + B, 'asserts': A},
+                {'name': 'c02_write_private_key', 'file': ST, 'tiers': ['dbg'], 'timeout': 1800, 'unwindset': UW, 'bounds': 'private-key file; ' + B, 'asserts': A},
+                {'name': 'c02_write_certificate', 'file': ST, 'tiers': ['dbg'], 'timeout': 1800, 'unwindset': UW, 'bounds': 'certificate file; ' + B, 'asserts': A},
             ],
         },
     ],
